@@ -1,6 +1,6 @@
-(** Deadlock freedom of the limits queue (C09): at quiescence nobody waits for resources.
-    For the variant that releases iff the job holds units and re-checks waiting jobs when a
-    nominated job ends up collapsed or cached. *)
+(** Event/phase consistency of the job machine, for the deadlock-freedom half of C09:
+    a job that holds units is with an executor (phase PSubmitted) or its completion event
+    (Done / Reject) is queued. *)
 From Coq Require Import List ZArith Bool Arith Lia Permutation.
 From RV Require Import Model.JobMachine Proofs.JobBase Proofs.JobRes Proofs.JobRes2 Proofs.JobRes3.
 Import ListNotations.
@@ -9,18 +9,20 @@ Open Scope list_scope.
 Definition good (x : job) : Prop := jcached x = true \/ 1 <= jreleases x.
 Definition good' (x : job) : Prop := good x \/ jholds x = true.
 
-Record Live (c : config) (s : state) : Prop := {
+Definition evjob (e : event) : nat :=
+  match e with EvExec j | EvDone j | EvReject j _ | EvResolve j _ => j end.
+
+(** [ex]: the job whose event has just been popped and whose handler is running; the
+    holder clause is re-established for it by the handler. *)
+Record Live (s : state) (ex : option nat) : Prop := {
   l_sub : forall j x, getj s j = Some x -> jphase x = PSubmitted -> jholds x = true \/ 1 <= jreleases x;
   l_eval : forall j x, getj s j = Some x -> jphase x = PEvaluating \/ jphase x = PEvalQ -> good x;
   l_done : forall j x, getj s j = Some x -> In (EvDone j) (queue s) -> good' x;
   l_res : forall j x v, getj s j = Some x -> In (EvResolve j v) (queue s) -> good x;
-  l_hold : forall j x, getj s j = Some x -> jholds x = true ->
+  l_hold : forall j x, getj s j = Some x -> jholds x = true -> ex <> Some j ->
            jphase x = PSubmitted \/ In (EvDone j) (queue s) \/ exists e, In (EvReject j e) (queue s);
-  l_feas : forall j x, getj s j = Some x -> within c (fun _ => 0%Z) (jlimits x) = true
+  l_bound : forall e, In e (queue s) -> evjob e < length (jobs s)
 }.
-
-Definition Wake (s : state) : Prop :=
-  waiting s <> [] -> (exists j x, getj s j = Some x /\ jholds x = true) \/ exec_ids (queue s) <> [].
 
 Lemma in_remove_nth {A} (q : list A) i e : In e (remove_nth q i) -> In e q.
 Proof.
@@ -36,79 +38,90 @@ Proof.
   - intros Hn [H|H] Hne; [auto|right; eauto].
 Qed.
 
-(** ** Generic preservation lemmas *)
 Section L.
-Variable c : config.
 
-(** replacing job j by y *)
-Lemma live_setj s j x y :
-  getj s j = Some x -> Live c s ->
-  (good x -> good y) -> (jholds y = true -> jholds x = true) -> (jholds x = true -> jholds y = true \/ good y) ->
-  jlimits y = jlimits x ->
+Lemma live_setj s ex j x y :
+  getj s j = Some x -> Live s ex ->
+  (good x -> good y) -> (jholds x = true -> jholds y = true \/ good y) ->
   (jphase y = PSubmitted -> jholds y = true \/ 1 <= jreleases y) ->
   (jphase y = PEvaluating \/ jphase y = PEvalQ -> good y) ->
-  (jholds y = true -> jphase y = PSubmitted \/ In (EvDone j) (queue s) \/ exists e, In (EvReject j e) (queue s)) ->
-  Live c (setj s j y).
+  (jholds y = true -> ex <> Some j ->
+     jphase y = PSubmitted \/ In (EvDone j) (queue s) \/ exists e, In (EvReject j e) (queue s)) ->
+  Live (setj s j y) ex.
 Proof.
-  intros Hx L G Hyx Hxy Hl P1 P2 P3.
+  intros Hx L G Hxy P1 P2 P3.
   assert (Hg : forall k z, getj (setj s j y) k = Some z ->
                  (k = j /\ z = y) \/ (k <> j /\ getj s k = Some z)).
   { intros k z H. destruct (Nat.eq_dec j k) as [->|Hne].
     - rewrite (getj_setj_same _ _ _ _ Hx) in H. injection H as <-. auto.
     - rewrite getj_setj_other in H by assumption. auto. }
-  destruct L as [a1 a2 a3 a4 a5 a7].
-  constructor; change (queue (setj s j y)) with (queue s); change (waiting (setj s j y)) with (waiting s).
+  destruct L as [a1 a2 a3 a4 a5 a6].
+  constructor; change (queue (setj s j y)) with (queue s).
   - intros k z Hz Hp. destruct (Hg _ _ Hz) as [[-> ->]|[Hne Hz']]; eauto.
   - intros k z Hz Hp. destruct (Hg _ _ Hz) as [[-> ->]|[Hne Hz']]; eauto.
   - intros k z Hz Hin. destruct (Hg _ _ Hz) as [[-> ->]|[Hne Hz']]; eauto.
     destruct (a3 _ _ Hx Hin) as [Hgd|Hh]; [left; auto|]. destruct (Hxy Hh); [now right|now left].
   - intros k z v Hz Hin. destruct (Hg _ _ Hz) as [[-> ->]|[Hne Hz']]; eauto.
-  - intros k z Hz Hh. destruct (Hg _ _ Hz) as [[-> ->]|[Hne Hz']]; eauto.
-  - intros k z Hz. destruct (Hg _ _ Hz) as [[-> ->]|[Hne Hz']]; eauto. rewrite Hl. eauto.
+  - intros k z Hz Hh He. destruct (Hg _ _ Hz) as [[-> ->]|[Hne Hz']]; eauto.
+  - intros e He. simpl. rewrite length_set_nth. auto.
 Qed.
 
 (** a phase change of a job that does not hold units *)
-Lemma live_phase s j x p :
-  getj s j = Some x -> Live c s -> jholds x = false ->
-  p <> PSubmitted -> (p = PEvaluating \/ p = PEvalQ -> good x) -> Live c (setj s j (with_phase x p)).
+Lemma live_phase s ex j x p :
+  getj s j = Some x -> Live s ex -> jholds x = false ->
+  p <> PSubmitted -> (p = PEvaluating \/ p = PEvalQ -> good x) -> Live (setj s j (with_phase x p)) ex.
 Proof.
-  intros Hx L Hh Hp Hg. apply (live_setj s j x); auto; simpl; try congruence; try tauto.
+  intros Hx L Hh Hp Hg. apply (live_setj s ex j x); auto; simpl; try congruence; try tauto.
 Qed.
 
-Lemma live_enqueue s e :
-  Live c s ->
+Lemma live_enqueue s ex e :
+  Live s ex ->
+  (exists x, getj s (evjob e) = Some x) ->
   (forall j x, e = EvDone j -> getj s j = Some x -> good' x) ->
   (forall j v x, e = EvResolve j v -> getj s j = Some x -> good x) ->
-  Live c (enqueue s e).
+  Live (enqueue s e) ex.
 Proof.
-  intros L H1 H2. destruct L as [a1 a2 a3 a4 a5 a7].
-  constructor; change (getj (enqueue s e)) with (getj s);
-    simpl queue; eauto.
+  intros L [x0 H0] H1 H2. destruct L as [a1 a2 a3 a4 a5 a6].
+  constructor; change (getj (enqueue s e)) with (getj s); simpl queue; simpl jobs; eauto.
   - intros j x Hx Hin. apply in_app_or in Hin. destruct Hin as [Hin|[E|[]]]; eauto.
   - intros j x v Hx Hin. apply in_app_or in Hin. destruct Hin as [Hin|[E|[]]]; eauto.
-  - intros j x Hx Hh. destruct (a5 _ _ Hx Hh) as [H|[H|(e0 & H)]]; auto.
+  - intros j x Hx Hh He. destruct (a5 _ _ Hx Hh He) as [H|[H|(e0 & H)]]; auto.
     + right. left. apply in_or_app. now left.
     + right. right. exists e0. apply in_or_app. now left.
+  - intros e1 He. apply in_app_or in He. destruct He as [He|[<-|[]]]; auto. eapply getj_lt; eauto.
 Qed.
 
-Lemma live_frame s s' :
-  jobs s' = jobs s -> queue s' = queue s -> Live c s -> Live c s'.
+Lemma live_frame s s' ex :
+  jobs s' = jobs s -> queue s' = queue s -> Live s ex -> Live s' ex.
 Proof.
   intros Hj Hq L. assert (Hg : forall k, getj s' k = getj s k) by (intros; unfold getj; now rewrite Hj).
-  destruct L. constructor; intros *; rewrite ?Hg, ?Hq; eauto.
+  destruct L. constructor; intros *; rewrite ?Hg, ?Hq, ?Hj; eauto.
 Qed.
 
-(** popping an event *)
+(** popping the event of job [evjob e]: its holder clause is suspended *)
 Lemma live_pop s i e :
-  nth_error (queue s) i = Some e -> Live c s ->
-  (forall j x, getj s j = Some x -> jholds x = true ->
-     (e = EvDone j \/ exists r, e = EvReject j r) -> False) ->
-  Live c (pop_queue s i).
+  nth_error (queue s) i = Some e -> Live s None -> Live (pop_queue s i) (Some (evjob e)).
 Proof.
-  intros Hn L Hne. destruct L as [a1 a2 a3 a4 a5 a7].
-  constructor; change (getj (pop_queue s i)) with (getj s); simpl queue; eauto using in_remove_nth.
-  intros j x Hx Hh. destruct (a5 _ _ Hx Hh) as [H|[H|(r & H)]]; auto.
-  - right. left. apply (in_remove_nth_other _ _ e _ Hn H). intros E. apply (Hne j x Hx Hh). left. now symmetry.
-  - right. right. exists r. apply (in_remove_nth_other _ _ e _ Hn H). intros E. apply (Hne j x Hx Hh). right. exists r. now symmetry.
+  intros Hn L. destruct L as [a1 a2 a3 a4 a5 a6].
+  constructor; change (getj (pop_queue s i)) with (getj s); simpl queue; simpl jobs; eauto using in_remove_nth.
+  intros j x Hx Hh Hne.
+  assert (Hj : j <> evjob e) by congruence.
+  destruct (a5 _ _ Hx Hh) as [H|[H|(r & H)]]; auto; try discriminate.
+  - right. left. apply (in_remove_nth_other _ _ e _ Hn H). intros <-. apply Hj. reflexivity.
+  - right. right. exists r. apply (in_remove_nth_other _ _ e _ Hn H). intros <-. apply Hj. reflexivity.
 Qed.
+
+(** the handler is over: the popped job does not hold (or satisfies the clause again) *)
+Lemma live_close s j :
+  Live s (Some j) ->
+  (forall x, getj s j = Some x -> jholds x = true ->
+     jphase x = PSubmitted \/ In (EvDone j) (queue s) \/ exists e, In (EvReject j e) (queue s)) ->
+  Live s None.
+Proof.
+  intros L H. destruct L as [a1 a2 a3 a4 a5 a6]. constructor; eauto.
+  intros k x Hx Hh _. destruct (Nat.eq_dec k j) as [->|Hne]; eauto. apply a5; auto. congruence.
+Qed.
+
+Lemma live_weaken s j : Live s None -> Live s (Some j).
+Proof. intros L. destruct L as [a1 a2 a3 a4 a5 a6]. constructor; eauto. intros k x Hx Hh _. apply a5; auto. discriminate. Qed.
 End L.
